@@ -5,6 +5,7 @@ import (
 	"fmt"
 	"sort"
 	"strings"
+	"sync/atomic"
 
 	"github.com/anishathalye/porcupine"
 	"github.com/go-kid/ioc/app"
@@ -57,11 +58,17 @@ func (x *c20X) Naming() string { return x.n }
 
 // c20FailScan is a user scanner that fails on the configured components. Its own state is only
 // read concurrently.
-type c20FailScan struct{ fail [8]bool }
+type c20FailScan struct {
+	fail [8]bool
+	seen [16]int32 // how often each component c<i> was handed to this scanner (atomic)
+}
 
 func (f *c20FailScan) Naming() string { return "zscan" }
 func (f *c20FailScan) PostProcessDefinitionRegistry(r container.DefinitionRegistry, c any, name string) error {
 	r.GetMetaOrRegister(name, c)
+	if len(name) == 2 && name[0] == 'c' {
+		atomic.AddInt32(&f.seen[name[1]-'0'], 1)
+	}
 	if len(name) == 2 && name[0] == 'c' && f.fail[name[1]-'0'] {
 		return errors.New("scan failed on " + name)
 	}
@@ -91,6 +98,8 @@ type c20ScanCase struct {
 	Order    []int `json:"spawn_order"`
 	Bound    int   `json:"preemption_bound"`
 	Script   []int `json:"schedule,omitempty"`
+	// Single: only the default schedule is run (many goroutines: component counts around a batch size)
+	Single bool `json:"default_schedule_only,omitempty"`
 }
 
 func c20Scan(c *core.Ctx) {
@@ -142,6 +151,15 @@ func c20Scan(c *core.Ctx) {
 		if stopped {
 			return
 		}
+		// component counts around a multiple of eight (work split into batches): one schedule each,
+		// every component scanned exactly once by every scanner, no race
+		for _, n := range []int{6, 7, 8} {
+			for _, builtin := range []bool{false, true} {
+				if !yield(c20ScanCase{N: n, Builtin: builtin, Order: scen.NthPerm(n, 0), Bound: 0, Single: true}) {
+					return
+				}
+			}
+		}
 		// a user scanner that reads the other components' definitions, next to the built-in scanner
 		for n := 1; n <= 2; n++ {
 			for k := 0; k < factorialInt(n); k++ {
@@ -158,6 +176,7 @@ func c20Scan(c *core.Ctx) {
 		}
 		var gotErr bool
 		var metas int
+		var seen [16]int32
 		body := func() {
 			syslog.ResetForVerif(syslog.LvTrace) // every execution starts with cold logger state
 			reg := support.NewRegistry()
@@ -183,6 +202,9 @@ func c20Scan(c *core.Ctx) {
 			err := f.PrepareComponents()
 			gotErr = err != nil
 			metas = len(f.GetDefinitionRegistry().GetMetas())
+			for i := range seen {
+				seen[i] = atomic.LoadInt32(&fs.seen[i])
+			}
 		}
 		oracle := func(e *scen.SchedExec) {
 			c.S.Evaluations++
@@ -202,6 +224,16 @@ func c20Scan(c *core.Ctx) {
 			case len(e.ChildPanics) > 0:
 				c.Outcome("panic")
 				c.Report(key("panic"), "panic", fmt.Sprintf("panic in a scanning goroutine: %v", e.ChildPanics), cc)
+			case !cs.Reader && func() bool {
+				for i := 0; i < cs.N; i++ {
+					if seen[i] != 1 {
+						return true
+					}
+				}
+				return false
+			}():
+				c.Outcome("not-once")
+				c.Report(key("scancount"), "not-exactly-once", fmt.Sprintf("scanning %d components (built-in scanner %v): the user scanner was handed the components %v times (want once each) under schedule %v", cs.N, cs.Builtin, seen[:cs.N], e.Script), cc)
 			case gotErr != (cs.FailMask != 0):
 				c.Outcome("error-lost")
 				c.Report(key("errlost"), "error-lost", fmt.Sprintf("scanner failed on mask %b but PrepareComponents returned error=%v under schedule %v", cs.FailMask, gotErr, e.Script), cc)
@@ -218,6 +250,10 @@ func c20Scan(c *core.Ctx) {
 		c.S.Programs++
 		if cs.N >= 2 {
 			c.S.Nontrivial++
+		}
+		if cs.Single {
+			oracle(scen.ReplaySched(nil, body))
+			return
 		}
 		st := scen.ExploreSched(cs.Bound, 0, c.Expired, body, oracle)
 		c.S.Transitions += st.Points
